@@ -343,6 +343,25 @@ def eval_mnemonic_case(case):
             viol.append((f'mnemonic-accept-differs:{len(idx)}-words', f'validate_mnemonic {"accepts" if res == "ok" else "rejects (" + res + ")"} "{text}" but its BIP-39 checksum is '
                          f'{"valid" if want else "invalid"}', {'mnemonic': text}))
         return out, viol
+    if kind == 'sequence':
+        # several word sequences validated one after the other in ONE process: the verdict on a sequence does not depend on what was
+        # validated before (same words in another order, the same words with other multiplicities)
+        for step, words in enumerate(case['seq']):
+            text = ' '.join(words)
+            idx = [pos.get(w) for w in words]
+            try:
+                validate_mnemonic(text)
+                res = 'ok'
+            except Exception as e:      # noqa: BLE001
+                res = K.canon_exc(e)
+            want = bip39_valid(idx)
+            if (res == 'ok') != want:
+                viol.append((f'mnemonic-accept-differs:after-other-validations:{len(idx)}-words',
+                             f'validate_mnemonic {"accepts" if res == "ok" else "rejects"} "{text}" (call #{step + 1} of a sequence over the same words; earlier: '
+                             f'{[" ".join(w[:4] for w in x[:3]) + "…" for x in case["seq"][:step]]}) but its BIP-39 checksum is {"valid" if want else "invalid"}',
+                             {'sequence': [' '.join(x) for x in case['seq'][:step + 1]]}))
+                break
+        return out, viol
     if kind == 'sweep':
         prefix = case['words']
         accepted = []
@@ -525,6 +544,15 @@ def run(ctx):
                      ('all-abandon', ['abandon'] * 12), ('abandon-about', ['abandon'] * 11 + ['about']), ('zoo-wrong', ['zoo'] * 11 + ['wrong']),
                      ('zoo-vote', ['zoo'] * 23 + ['vote']), ('trailing-space', w[:11] + [w[11] + ' '])]:
         cases.append((eval_mnemonic_case, {'kind': 'validate', 'what': what, 'words': ws}))
+    for n in ((12, 24) if quick else (12, 15, 18, 21, 24) * 6):
+        w = valid_mnemonic(n)
+        i, j = rng.sample(range(n), 2)
+        sw = list(w)
+        sw[i], sw[j] = sw[j], sw[i]
+        rot = w[1:] + w[:1]
+        longer = (w + w[:3]) if n + 3 <= 24 else (w[:n - 3])
+        seq = [w, sw, rot, longer, list(reversed(w)), w]
+        cases.append((eval_mnemonic_case, {'kind': 'sequence', 'seq': seq if rng.random() < 0.7 else [sw, w, sw, rot]}))
     sweeps = [12, 24] if quick else [12, 15, 18, 21, 24] * 4
     for n in sweeps:
         prefix = [rng.choice(wl) for _ in range(n - 1)]
